@@ -3,6 +3,7 @@ package main
 // E3: guard facts by edge dominance, and CFG reachability helpers.
 
 import (
+	"go/constant"
 	"go/token"
 	"go/types"
 
@@ -76,35 +77,178 @@ func expandFact(f Fact) []Fact {
 
 func expandFactN(f Fact, seen map[Fact]bool) []Fact {
 	out := []Fact{f}
-	phi, ok := f.Cond.(*ssa.Phi)
-	if !ok || seen[f] {
+	phi, contradicts := phiFact(f)
+	if phi == nil {
+		return out
+	}
+	if seen[f] {
 		return out
 	}
 	seen[f] = true
-	feasible := -1
-	n := 0
+	var feasible []int
 	for i, e := range phi.Edges {
-		if c, ok := e.(*ssa.Const); ok && c.Value != nil && constString(c.Value) != boolStr(f.Pol) {
-			continue // this edge carries the opposite constant
+		if !contradicts(e) {
+			feasible = append(feasible, i)
 		}
-		feasible = i
-		n++
 	}
-	if n != 1 {
+	if len(feasible) == 0 || len(feasible) > 4 {
 		return out
 	}
-	e := phi.Edges[feasible]
-	pred := phi.Block().Preds[feasible]
-	if _, isConst := e.(*ssa.Const); !isConst {
-		out = append(out, expandFactN(normFact(e, f.Pol), seen)...)
+	edgeFacts := func(i int, seen map[Fact]bool) []Fact {
+		var fs []Fact
+		e := phi.Edges[i]
+		pred := phi.Block().Preds[i]
+		if _, isPhiFact := f.Cond.(*ssa.Phi); isPhiFact {
+			if _, isConst := e.(*ssa.Const); !isConst {
+				fs = append(fs, expandFactN(normFact(e, f.Pol), seen)...)
+			}
+		}
+		fs = append(fs, blockFactsS(pred, seen)...)
+		if len(pred.Instrs) > 0 {
+			if ifi, ok := pred.Instrs[len(pred.Instrs)-1].(*ssa.If); ok && pred.Succs[0] != pred.Succs[1] {
+				fs = append(fs, expandFactN(normFact(ifi.Cond, pred.Succs[0] == phi.Block()), seen)...)
+			}
+		}
+		return fs
 	}
-	out = append(out, blockFactsS(pred, seen)...)
-	if len(pred.Instrs) > 0 {
-		if ifi, ok := pred.Instrs[len(pred.Instrs)-1].(*ssa.If); ok && pred.Succs[0] != pred.Succs[1] {
-			out = append(out, expandFactN(normFact(ifi.Cond, pred.Succs[0] == phi.Block()), seen)...)
+	if len(feasible) == 1 {
+		return append(out, edgeFacts(feasible[0], seen)...)
+	}
+	// several feasible edges: what holds on all of them holds
+	common := map[Fact]int{}
+	var order []Fact
+	for _, i := range feasible {
+		mine := map[Fact]bool{}
+		sub := map[Fact]bool{}
+		for k, v := range seen {
+			sub[k] = v
+		}
+		for _, g := range edgeFacts(i, sub) {
+			if !mine[g] {
+				mine[g] = true
+				if common[g] == 0 {
+					order = append(order, g)
+				}
+				common[g]++
+			}
+		}
+	}
+	for _, g := range order {
+		if common[g] == len(feasible) {
+			out = append(out, g)
 		}
 	}
 	return out
+}
+
+// phiFact: when f speaks about a phi — the phi itself as a boolean, or phi == K / phi != K with
+// a constant K (nil included) — it returns the phi and the test that rules an incoming value out:
+// a constant that compares the other way, or a value known to be non-nil when nil is asserted.
+func phiFact(f Fact) (*ssa.Phi, func(e ssa.Value) bool) {
+	switch c := f.Cond.(type) {
+	case *ssa.Phi:
+		return c, func(e ssa.Value) bool {
+			k, ok := e.(*ssa.Const)
+			return ok && k.Value != nil && constString(k.Value) != boolStr(f.Pol)
+		}
+	case *ssa.BinOp:
+		if c.Op != token.EQL && c.Op != token.NEQ {
+			return nil, nil
+		}
+		var phi *ssa.Phi
+		var k *ssa.Const
+		if p, ok := c.X.(*ssa.Phi); ok {
+			phi, k = p, constOperand(c.Y)
+		} else if p, ok := c.Y.(*ssa.Phi); ok {
+			phi, k = p, constOperand(c.X)
+		}
+		if phi == nil || k == nil {
+			return nil, nil
+		}
+		wantEq := assertsEq(c, f.Pol)
+		return phi, func(e ssa.Value) bool {
+			if ek := constOperand(e); ek != nil {
+				return sameConst(ek, k) != wantEq
+			}
+			return wantEq && k.IsNil() && knownNonNil(e)
+		}
+	}
+	return nil, nil
+}
+
+// refine resolves a phi to the single incoming value the facts leave possible (v itself otherwise).
+func refine(v ssa.Value, facts []Fact) ssa.Value {
+	for depth := 0; depth < 4; depth++ {
+		phi, ok := v.(*ssa.Phi)
+		if !ok {
+			return v
+		}
+		alive := make([]bool, len(phi.Edges))
+		for i := range alive {
+			alive[i] = true
+		}
+		for _, f := range facts {
+			if p, contradicts := phiFact(f); p == phi {
+				for i, e := range phi.Edges {
+					if contradicts(e) {
+						alive[i] = false
+					}
+				}
+			}
+		}
+		var only ssa.Value
+		n := 0
+		for i, e := range phi.Edges {
+			if alive[i] {
+				only = e
+				n++
+			}
+		}
+		if n != 1 {
+			return v
+		}
+		v = only
+	}
+	return v
+}
+
+func constOperand(v ssa.Value) *ssa.Const {
+	for {
+		switch x := v.(type) {
+		case *ssa.Const:
+			return x
+		case *ssa.ChangeType:
+			v = x.X
+		case *ssa.MakeInterface:
+			return nil
+		default:
+			return nil
+		}
+	}
+}
+
+func sameConst(a, b *ssa.Const) bool {
+	if a.IsNil() || b.IsNil() {
+		return a.IsNil() && b.IsNil()
+	}
+	if a.Value == nil || b.Value == nil {
+		return a.Value == nil && b.Value == nil
+	}
+	return constant.Compare(a.Value, token.EQL, b.Value)
+}
+
+// knownNonNil: values that are never nil.
+func knownNonNil(v ssa.Value) bool {
+	switch x := v.(type) {
+	case *ssa.Alloc, *ssa.MakeInterface, *ssa.MakeClosure, *ssa.MakeMap, *ssa.MakeSlice, *ssa.MakeChan, *ssa.FieldAddr, *ssa.IndexAddr, *ssa.Function, *ssa.Global:
+		return true
+	case *ssa.Call:
+		n := calleeName(&x.Call)
+		return n == "errors.New" || n == "fmt.Errorf"
+	case *ssa.ChangeType:
+		return knownNonNil(x.X)
+	}
+	return false
 }
 
 func boolStr(b bool) string {
